@@ -41,7 +41,9 @@ type handler struct {
 }
 
 type scenario struct {
-	Source string // rule | default | none
+	Source string // rule | default | none | inherit (the rule defines some stages, the others come from the default rule)
+	// InRule (Source inherit): which stages the rule defines itself - authentication, authorization/contextualization, finalization
+	InRule [3]bool
 	Steps  []step
 	EH     []handler
 	Entry  vkit.Entry
@@ -101,7 +103,7 @@ func genCond(t *rapid.T) string {
 
 func genScenario(t *rapid.T) scenario {
 	s := scenario{
-		Source: rapid.SampledFrom([]string{"rule", "rule", "rule", "default", "none"}).Draw(t, "source"),
+		Source: rapid.SampledFrom([]string{"rule", "rule", "inherit", "inherit", "default", "none"}).Draw(t, "source"),
 		Entry:  rapid.SampledFrom(vkit.AllEntries).Draw(t, "entry"),
 	}
 
@@ -162,6 +164,10 @@ func genScenario(t *rapid.T) scenario {
 		}
 
 		s.Steps = append(s.Steps, st)
+	}
+
+	if s.Source == "inherit" {
+		s.InRule = [3]bool{rapid.Bool().Draw(t, "ruleDefinesAuthentication"), rapid.Bool().Draw(t, "ruleDefinesAuthorization"), rapid.Bool().Draw(t, "ruleDefinesFinalization")}
 	}
 
 	ne := rapid.IntRange(0, 3).Draw(t, "nEH")
@@ -299,12 +305,76 @@ func build(s scenario) (*vkit.World, error) {
 		conf.Default = &config.DefaultRule{Execute: execute, ErrorHandler: onError}
 	}
 
+	// stage-wise: the steps of the stages the rule defines go to the rule, the others to the default rule, which has
+	// harmless steps of its own for the stages the rule defines (they must not run)
+	var ruleExecute []config.MechanismConfig
+
+	if s.Source == "inherit" {
+		stageOf := func(kind string) int {
+			switch kind {
+			case "authenticator":
+				return 0
+			case "finalizer":
+				return 2
+			}
+
+			return 1
+		}
+
+		var defExecute []config.MechanismConfig
+
+		defined := [3]bool{}
+
+		for i, st := range s.Steps {
+			if s.InRule[stageOf(st.Kind)] {
+				ruleExecute = append(ruleExecute, execute[i])
+				defined[stageOf(st.Kind)] = true
+			}
+		}
+
+		if len(ruleExecute) == 0 {
+			// (a rule has to define something: authentication then)
+			s.InRule[0] = true
+
+			for i, st := range s.Steps {
+				if st.Kind == "authenticator" {
+					ruleExecute = append(ruleExecute, execute[i])
+					defined[0] = true
+				}
+			}
+		}
+
+		protos.Authenticators = append(protos.Authenticators, config.Mechanism{ID: "d_authn", Type: vkit.ProbeType, Config: config.MechanismConfig{"outcome": "ok"}})
+		protos.Authorizers = append(protos.Authorizers, config.Mechanism{ID: "d_authz", Type: vkit.ProbeType, Config: config.MechanismConfig{"outcome": "ok"}})
+		protos.Finalizers = append(protos.Finalizers, config.Mechanism{ID: "d_fin", Type: vkit.ProbeType, Config: config.MechanismConfig{"outcome": "ok"}})
+
+		for stage, own := range []string{"authenticator", "authorizer", "finalizer"} {
+			if defined[stage] {
+				defExecute = append(defExecute, config.MechanismConfig{own: "d_" + map[string]string{"authenticator": "authn", "authorizer": "authz", "finalizer": "fin"}[own]})
+
+				continue
+			}
+
+			for i, st := range s.Steps {
+				if stageOf(st.Kind) == stage {
+					defExecute = append(defExecute, execute[i])
+				}
+			}
+		}
+
+		conf.Default = &config.DefaultRule{Execute: defExecute}
+	}
+
 	w, err := vkit.NewWorld(vkit.WorldOpts{Conf: conf, Mode: mode, LogLevel: s.LogLevel})
 	if err != nil {
 		return nil, err
 	}
 
-	if s.Source == "rule" {
+	if s.Source == "rule" || s.Source == "inherit" {
+		if s.Source == "inherit" {
+			execute = ruleExecute
+		}
+
 		r := rulecfg.Rule{
 			ID:           "the-rule",
 			Matcher:      rulecfg.Matcher{Routes: []rulecfg.Route{{Path: "/r/:x"}}},
@@ -407,7 +477,7 @@ func TestPositiveAnswerOnlyAfterCompletePipeline(t *testing.T) {
 		defer w.Close()
 
 		path := "/r/1"
-		if s.Source != "rule" {
+		if s.Source != "rule" && s.Source != "inherit" {
 			path = "/other"
 		}
 
